@@ -15,11 +15,7 @@ def run(res, tier, seed):
                        "rank K^T = n-r, by the extracted checker x_kernel_ok (Gauss.rank / mmul / is_zero on the ORIGINAL A); Tier B: "
                        "A' and K bit-identical with Solve.kernel_left_cfg at the build's PLE cut-off.  distinct by (shape class, "
                        "rank-profile style, cutoff, PLE regime, build)")
-    if os.path.exists(os.path.join(vlib.COQ, "Properties", "Properties_C07.v")):
-        engine.proof_part(res, PROOFS)
-    else:
-        engine.proof_part(res, [])
-        res.cov["proof_note"] = "coq/Properties/Properties_C07.v does not exist yet: correspondence only"
+    ops.proof_part(res, PROOFS[0])
     quick = tier == "quick"
     T = {n: ops.Tiers(res, "C07", ops.VARIANTS[n](vlib)) for n in ("host", "small", "stress")}
     res.cov["configurations"] = [dict(t.variant) for t in T.values()]
@@ -27,7 +23,7 @@ def run(res, tier, seed):
     T["host"].run(OPS, seed, 300 if quick else 2500, 100)
     T["host"].run(OPS, seed + 1, 40 if quick else 400, 200 if quick else 600)
     T["small"].run(OPS, seed + 2, 60 if quick else 600, 130 if quick else 400)
-    T["stress"].run(OPS, seed + 3, 120 if quick else 1000, 150 if quick else 300)
+    T["stress"].run(OPS, seed + 3, 120 if quick else 1000, 150 if quick else 300, rec_bias=0.5)
 
 
 def replay(res, path):
